@@ -220,7 +220,7 @@ class ReferenceCache:
         self,
         block: gtirb.Block,
         to_block: Optional[gtirb.Block],
-        at_end: bool,
+        at_end: Optional[bool],
     ) -> None:
         """Retarget all block references to point to to_block instead.
 
@@ -230,7 +230,9 @@ class ReferenceCache:
         :param block: block to move references from
         :param to_block: block to move references to
         :param at_end: whether to move references to the start or end of
-             to_block
+             to_block. If None, references to the start of block move to the
+             start of to_block and references to the end of block move to the
+             end of to_block.
         """
         if not any(block.references) and block not in self._references:
             # No direct or indirect references, so nothing to retarget.
@@ -265,16 +267,19 @@ class ReferenceCache:
         # Get indirect references to the target block.
         if to_block not in self._references:
             self._references[to_block] = RefNode(to_block), RefNode(to_block)
-        if at_end:
-            target_ref = self._references[to_block][1]
+        to_start_refs, to_end_refs = self._references[to_block]
+        if at_end is None:
+            start_target_ref, end_target_ref = to_start_refs, to_end_refs
+        elif at_end:
+            start_target_ref = end_target_ref = to_end_refs
         else:
-            target_ref = self._references[to_block][0]
+            start_target_ref = end_target_ref = to_start_refs
 
         # Point source-block references to the target block.
-        target_ref.children.add(start_refs)
-        target_ref.children.add(end_refs)
-        start_refs.parent = target_ref
-        end_refs.parent = target_ref
+        start_target_ref.children.add(start_refs)
+        end_target_ref.children.add(end_refs)
+        start_refs.parent = start_target_ref
+        end_refs.parent = end_target_ref
 
     def get_references(self, block: gtirb.Block) -> Iterator[gtirb.Symbol]:
         """
